@@ -6,6 +6,7 @@ import (
 	"strings"
 	"time"
 
+	"github.com/IBM/fluent-forward-go/fluent/client"
 	"github.com/IBM/fluent-forward-go/fluent/protocol"
 
 	"verif/harness/core"
@@ -18,6 +19,26 @@ func concSend(cf ccfg, kind string, size int, chunk string, ackOK bool) concOp {
 	o := concOp{kind: "S", msg: m, ackOK: ackOK}
 	probe := mkSend(cf, m, -1)
 	o.enc, o.chunk, o.noChk = probe.enc, probe.chunk, probe.chunkErr
+	return o
+}
+
+// concHelper: a send through SendPackedFromBytes / SendCompressedFromBytes (the helpers whose message is a
+// function of their arguments alone): the bytes are the encoding of the message the helper is documented to build.
+func concHelper(cf ccfg, compressed bool, n int) concOp {
+	stream := sizedMessage(nil, "packed", n, "").(*protocol.PackedForwardMessage).EventStream
+	var m protocol.ChunkEncoder
+	var o concOp
+	if compressed {
+		m, _ = protocol.NewCompressedPackedForwardMessageFromBytes("helper.tag", stream)
+		// the helper compresses again on every call: the same input gives the same bytes
+		o.call = func(cl *client.Client) error { return cl.SendCompressedFromBytes("helper.tag", stream) }
+	} else {
+		m = protocol.NewPackedForwardMessageFromBytes("helper.tag", stream)
+		o.call = func(cl *client.Client) error { return cl.SendPackedFromBytes("helper.tag", stream) }
+	}
+	o.kind, o.msg, o.ackOK = "S", m, true
+	probe := mkSend(ccfg{host: cf.host}, m, -1)
+	o.enc = probe.enc
 	return o
 }
 
@@ -56,6 +77,13 @@ func C08(c *core.Ctx) {
 		return [][]concOp{{concSend(cf, "message", 70000, "", true)}, {concSend(cf, "message", small, "", true)}, {{kind: "W", raw: []byte("\x93\xa3RAW\x01\x80")}}}
 	}}, conf{"acks: 70 KB packed message + SendRaw", ccfg{host: []byte("h"), ack: true, timeout: time.Second}, func(cf ccfg) [][]concOp {
 		return [][]concOp{{concSend(cf, "packed", 70000, "big-1", true)}, {{kind: "W", raw: []byte("\x93\xa3RAW\x01\x80")}}}
+	}})
+	// the helpers that build their message from the caller's bytes (a helper is free to take another route to the
+	// connection than Send does: whatever route, other senders' bytes stay outside its message)
+	confs = append(confs, conf{"SendPackedFromBytes (5 KB stream) + small message + SendRaw", ccfg{host: []byte("h")}, func(cf ccfg) [][]concOp {
+		return [][]concOp{{concHelper(cf, false, 5000)}, {concSend(cf, "message", small, "", true)}, {{kind: "W", raw: []byte("\x93\xa3RAW\x01\x80")}}}
+	}}, conf{"SendCompressedFromBytes (20 KB stream) + SendPackedFromBytes (4 KB stream) + small message", ccfg{host: []byte("h")}, func(cf ccfg) [][]concOp {
+		return [][]concOp{{concHelper(cf, true, 20000)}, {concHelper(cf, false, 4096)}, {concSend(cf, "message", small, "", true)}}
 	}})
 	failing := func(o concOp, acc int) concOp { o.wfail, o.wacc = true, acc; return o }
 	confs = append(confs,
